@@ -811,6 +811,10 @@ def encode_records(schema, msg, rng=None, knobs=None):
                     recs.append(enc_elem(schema, f, v, rng, knobs))
         else:
             if not is_present(f, s):
+                if (knobs.get('explicit_zero') and f.label == L_NONE and not f.oneof and f.type != T_MESSAGE and rng.random() < 0.5):
+                    # an implicit-presence field holding zero / "" written out all the same: valid wire data no canonical
+                    # serialiser produces (a string then arrives as a separately allocated empty block)
+                    recs.append(enc_elem(schema, f, _zero_val(f), rng, knobs))
                 continue
             if knobs.get('omit_req_dflt') and f.label == L_REQ and f.dflt is not None and rng.random() < 0.5:
                 continue                  # a required field WITH a declared default may be left off the wire: the parser
